@@ -155,6 +155,25 @@ func funcKey(f *ssa.Function) string {
 // Func returns the in-package function with the given key, or nil.
 func (p *Program) Func(key string) *ssa.Function { return p.byKey[key] }
 
+// closureTarget resolves the function a MakeClosure stands for: the closure's
+// own body, or - for a bound method value (x.m) - the declared method, which is
+// then called with the single binding as its receiver.
+func (p *Program) closureTarget(mc *ssa.MakeClosure) (fn *ssa.Function, bound bool) {
+	f, _ := mc.Fn.(*ssa.Function)
+	if f == nil {
+		return nil, false
+	}
+	if f.Synthetic != "" && strings.HasSuffix(f.Name(), "$bound") {
+		if o, ok := f.Object().(*types.Func); ok {
+			if df := p.SSA.FuncValue(o); df != nil {
+				return df, true
+			}
+		}
+		return nil, true
+	}
+	return f, false
+}
+
 // MustFunc is Func but an unresolved anchor aborts the analysis.
 func (p *Program) MustFunc(key string) *ssa.Function {
 	f := p.byKey[key]
